@@ -90,16 +90,23 @@ class UserUpdateSegmentation(ActionGroup):
                     time_key: time,
                     tracklet_key: current_track_id,
                 }
-                self.actions.append(
-                    UserAddNode(
-                        tracks,
-                        new_value,
-                        attributes=attrs,
-                        pixels=all_pixels,
-                        force=force,
-                        _top_level=False,
+                try:
+                    self.actions.append(
+                        UserAddNode(
+                            tracks,
+                            new_value,
+                            attributes=attrs,
+                            pixels=all_pixels,
+                            force=force,
+                            _top_level=False,
+                        )
                     )
-                )
+                except InvalidActionError:
+                    # the new node was refused: take back the updates of the
+                    # overwritten nodes that were already applied
+                    for action in reversed(self.actions):
+                        action.inverse()
+                    raise
                 node_to_select = new_value
 
         self.tracks.action_history.add_new_action(self)
